@@ -16,7 +16,8 @@ CONSTANTS
     Ops,          \* subset of {"declare", "get", "consume", "cancel", "close", "publish", "listen"}
     SrvKinds,     \* subset of {"chclose", "connclose", "deliver", "cancel", "ack", "blocked"}
     Faults,       \* subset of {"eof", "werr"}
-    ClientClose   \* BOOLEAN: the client may call Connection::close
+    ClientClose,  \* BOOLEAN: the client may call Connection::close
+    Compliant     \* BOOLEAN: the server obeys the protocol (see "server" below); FALSE = any server
 
 VARIABLES
     w,        \* the world (Conn.tla)
@@ -25,14 +26,15 @@ VARIABLES
     owed,     \* channel -> replies the server still owes (it may answer channels in any order)
     budget,   \* remaining spontaneous server events
     wire,     \* ghost: [final, after] - a Close/CloseOk was written; something was written after it
-    nextid    \* ghost: fresh ids for calls and messages
+    nextid,   \* ghost: fresh ids for calls and messages
+    sv        \* the server's own view (used when Compliant): [open, cons, closed]
 
-vars == <<w, cl, srvin, owed, budget, wire, nextid>>
+vars == <<w, cl, srvin, owed, budget, wire, nextid, sv>>
 
 HName(n) == "h" \o ToString(n)
 CName(n) == "c" \o ToString(n)
 
-Idle == [busy |-> FALSE, op |-> "", id |-> 0, ncalls |-> 0, res |-> <<"none", 0>>, sync |-> FALSE]
+Idle == [busy |-> FALSE, op |-> "", id |-> 0, ncalls |-> 0, res |-> <<"none", 0>>, sync |-> FALSE, consumed |-> FALSE]
 
 Init ==
     /\ w = EmptyWorld
@@ -42,6 +44,7 @@ Init ==
     /\ budget = SrvBudget
     /\ wire = [final |-> FALSE, after |-> FALSE]
     /\ nextid = 1
+    /\ sv = [open |-> {}, cons |-> {}, closed |-> FALSE]
 
 Alive == ~w.gone
 
@@ -55,7 +58,7 @@ OpenChannel(n) ==
                     [k |-> "send", fr |-> [type |-> "method", ch |-> n, m |-> "channel.open", id |-> nextid]])
     /\ cl' = Put(cl, HName(n), [Idle EXCEPT !.busy = TRUE, !.op = "open", !.id = nextid, !.sync = TRUE])
     /\ nextid' = nextid + 1
-    /\ UNCHANGED <<srvin, owed, budget, wire>>
+    /\ UNCHANGED <<srvin, owed, budget, wire, sv>>
 
 ReqMethod(op) ==
     CASE op = "declare" -> "queue.declare" [] op = "get" -> "basic.get" [] op = "consume" -> "basic.consume"
@@ -64,6 +67,9 @@ ReqMethod(op) ==
 Call(h, op) ==
     /\ h \in DOMAIN cl /\ h # "conn" /\ ~cl[h].busy /\ cl[h].ncalls < MaxCalls
     /\ op \in Ops
+    \* (towards a compliant server a handle starts its one consumer tag only once: a second consume
+    \* with the same tag would rightly be refused)
+    /\ (Compliant /\ op = "consume") => ~cl[h].consumed
     /\ LET n == w.hs[h].ch
            fr == [type |-> "method", ch |-> n, m |-> ReqMethod(op), id |-> nextid,
                   consumer_tag |-> CName(n)]
@@ -75,18 +81,19 @@ Call(h, op) ==
                  ELSE w
        IN /\ w' = Enqueue(w1, h, msg)
           /\ cl' = [cl EXCEPT ![h] = [busy |-> TRUE, op |-> op, id |-> nextid, ncalls |-> @.ncalls + 1,
-                                      res |-> <<"none", 0>>, sync |-> sync]]
+                                      res |-> <<"none", 0>>, sync |-> sync,
+                                      consumed |-> cl[h].consumed \/ op = "consume"]]
     /\ nextid' = nextid + 1
-    /\ UNCHANGED <<srvin, owed, budget, wire>>
+    /\ UNCHANGED <<srvin, owed, budget, wire, sv>>
 
 CloseConn ==
     /\ ClientClose /\ ~cl["conn"].busy /\ cl["conn"].ncalls = 0
     /\ w' = Enqueue(w, "conn", [k |-> "close", fr |-> [type |-> "method", ch |-> 0, m |-> "connection.close",
                                                        code |-> 200, id |-> nextid]])
     /\ cl' = [cl EXCEPT !["conn"] = [busy |-> TRUE, op |-> "closeconn", id |-> nextid, ncalls |-> 1,
-                                     res |-> <<"none", 0>>, sync |-> TRUE]]
+                                     res |-> <<"none", 0>>, sync |-> TRUE, consumed |-> FALSE]]
     /\ nextid' = nextid + 1
-    /\ UNCHANGED <<srvin, owed, budget, wire>>
+    /\ UNCHANGED <<srvin, owed, budget, wire, sv>>
 
 \* IoLoopHandle::recv returns (or send failed and check_recv_for_error ran)
 Return(h) ==
@@ -100,7 +107,7 @@ Return(h) ==
        ELSE \* nowait: returns as soon as the request is queued (or the queue is gone)
             /\ w' = w
             /\ cl' = [cl EXCEPT ![h].busy = FALSE, ![h].res = <<"ok", cl[h].id>>]
-    /\ UNCHANGED <<srvin, owed, budget, wire, nextid>>
+    /\ UNCHANGED <<srvin, owed, budget, wire, nextid, sv>>
 
 -----------------------------------------------------------------------------
 \* I/O thread
@@ -109,7 +116,7 @@ IoPull(n) ==
     /\ Alive
     /\ LET h == HandleOf(w, n) IN h # "" /\ w.hs[h].pend # <<>>
     /\ w' = Settle(Pull(w, n))
-    /\ UNCHANGED <<cl, srvin, owed, budget, wire, nextid>>
+    /\ UNCHANGED <<cl, srvin, owed, budget, wire, nextid, sv>>
 
 IoWrite ==
     /\ Alive /\ w.out # <<>>
@@ -118,17 +125,17 @@ IoWrite ==
        /\ wire' = [final |-> wire.final \/ (f.ch = 0 /\ f.m \in {"connection.close", "connection.close-ok"}),
                    after |-> wire.after \/ wire.final]
     /\ w' = Settle(Wrote(w))
-    /\ UNCHANGED <<cl, owed, budget, nextid>>
+    /\ UNCHANGED <<cl, owed, budget, nextid, sv>>
 
 IoDispatch ==
     /\ Alive /\ w.srvq # <<>>
     /\ w' = Settle(Dispatch([w EXCEPT !.srvq = Tail(@)], Head(w.srvq)))
-    /\ UNCHANGED <<cl, srvin, owed, budget, wire, nextid>>
+    /\ UNCHANGED <<cl, srvin, owed, budget, wire, nextid, sv>>
 
 Fault(k) ==
     /\ Alive /\ k \in Faults
     /\ w' = Fatal(w, IF k = "eof" THEN "UnexpectedSocketClose" ELSE "IoErrorWritingSocket")
-    /\ UNCHANGED <<cl, srvin, owed, budget, wire, nextid>>
+    /\ UNCHANGED <<cl, srvin, owed, budget, wire, nextid, sv>>
 
 -----------------------------------------------------------------------------
 \* server
@@ -145,11 +152,40 @@ ReplyTo(f) ==
       [] f.m = "connection.close" -> [type |-> "method", ch |-> 0, m |-> "connection.close-ok", id |-> f.id]
       [] OTHER -> [type |-> "none"]
 
+\* A compliant server (Compliant = TRUE) keeps its own view `sv`: the channels it considers open
+\* (from the moment it sends OpenOk until it sends or receives a Close for them), the channels with
+\* an active consumer (from ConsumeOk until a cancel from either side or the channel's end), and
+\* whether it has sent or answered a Connection.Close.  It never sends a frame for a channel that is
+\* not open in its view, drops what it still owed a channel when it closes that channel itself,
+\* ignores whatever arrives for a channel it is closing except Close/CloseOk, and after a
+\* Connection.Close of its own sends nothing but the CloseOk for a crossing client Close.
+EmptyOwed == [n \in Chans \cup {0} |-> <<>>]
+
 SrvTake ==
     /\ srvin # <<>>
     /\ LET f == Head(srvin)
            r == ReplyTo(f)
-       IN owed' = IF r.type = "none" THEN owed ELSE [owed EXCEPT ![f.ch] = Append(@, r)]
+           n == f.ch
+           owe(q) == IF r.type = "none" THEN q ELSE [q EXCEPT ![n] = Append(@, r)]
+       IN IF ~Compliant
+          THEN /\ owed' = owe(owed) /\ sv' = sv
+          ELSE IF sv.closed
+          THEN \* closing the connection: only a crossing Connection.Close is still answered
+               /\ owed' = IF f.m = "connection.close" THEN owe(owed) ELSE owed
+               /\ sv' = sv
+          ELSE IF f.m = "connection.close"
+          THEN /\ owed' = owe(EmptyOwed)
+               /\ sv' = [open |-> {}, cons |-> {}, closed |-> TRUE]
+          ELSE IF f.m = "channel.open"
+          THEN /\ owed' = owe(owed) /\ sv' = sv              \* open in its view once OpenOk is sent
+          ELSE IF n # 0 /\ n \notin sv.open
+          THEN \* a channel it has closed itself: a crossing Close is answered, the rest is discarded
+               /\ owed' = IF f.m = "channel.close" THEN owe(owed) ELSE owed
+               /\ sv' = sv
+          ELSE /\ owed' = owe(owed)
+               /\ sv' = CASE f.m = "channel.close" -> [sv EXCEPT !.open = @ \ {n}, !.cons = @ \ {n}]
+                           [] f.m = "basic.cancel" -> [sv EXCEPT !.cons = @ \ {n}]
+                           [] OTHER -> sv
     /\ srvin' = Tail(srvin)
     /\ UNCHANGED <<w, cl, budget, wire, nextid>>
 
@@ -157,6 +193,10 @@ SrvReply(n) ==
     /\ owed[n] # <<>>
     /\ w' = [w EXCEPT !.srvq = Append(@, Head(owed[n]))]
     /\ owed' = [owed EXCEPT ![n] = Tail(@)]
+    /\ sv' = IF ~Compliant THEN sv
+             ELSE CASE Head(owed[n]).m = "channel.open-ok" -> [sv EXCEPT !.open = @ \cup {n}]
+                    [] Head(owed[n]).m = "basic.consume-ok" -> [sv EXCEPT !.cons = @ \cup {n}]
+                    [] OTHER -> sv
     /\ UNCHANGED <<cl, srvin, budget, wire, nextid>>
 
 SrvSend(frames) ==
@@ -164,10 +204,22 @@ SrvSend(frames) ==
     /\ budget' = budget - 1
     /\ w' = [w EXCEPT !.srvq = @ \o frames]
     /\ nextid' = nextid + 1
-    /\ UNCHANGED <<cl, srvin, owed, wire>>
+    /\ UNCHANGED <<cl, srvin, wire>>
 
 SrvSpont(n, kind) ==
     /\ kind \in SrvKinds
+    /\ Compliant => /\ ~sv.closed
+                    /\ kind \in {"chclose", "ack"} => n \in sv.open
+                    /\ kind \in {"deliver", "cancel"} => n \in sv.open /\ n \in sv.cons
+    /\ sv' = IF ~Compliant THEN sv
+             ELSE CASE kind = "chclose" -> [sv EXCEPT !.open = @ \ {n}, !.cons = @ \ {n}]
+                    [] kind = "connclose" -> [open |-> {}, cons |-> {}, closed |-> TRUE]
+                    [] kind = "cancel" -> [sv EXCEPT !.cons = @ \ {n}]
+                    [] OTHER -> sv
+    /\ owed' = IF ~Compliant THEN owed
+               ELSE CASE kind = "chclose" -> [owed EXCEPT ![n] = <<>>]
+                      [] kind = "connclose" -> EmptyOwed
+                      [] OTHER -> owed
     /\ CASE kind = "chclose" ->
               SrvSend(<<[type |-> "method", ch |-> n, m |-> "channel.close", code |-> 404, text |-> "x"]>>)
          [] kind = "connclose" ->
@@ -236,6 +288,12 @@ Released ==
 NoStuckCaller ==
     \A h \in DOMAIN cl :
         (cl[h].busy /\ cl[h].sync /\ w.hs[h].dead) => (w.hs[h].repq # <<>> \/ ~w.hs[h].tx)
+
+\* C05/C08/C20: as long as the transport does not fail, a compliant server - whatever it does on its
+\* own initiative and however its frames interleave with the client's requests, crossing closes
+\* included - never makes the I/O thread end with an internal error, so Connection::close reports
+\* the server's close (ExitResult in phase srvclosing) or Ok
+NoInternalError == (Faults = {}) => w.fatal = ""
 
 \* C11: a consumer queue holds deliveries and then at most one terminal message, which is last;
 \* a queue whose sender is gone has its terminal message unless the I/O thread died
